@@ -18,15 +18,21 @@ package main
 
 import (
 	"bytes"
+	"crypto"
+	"crypto/x509"
 	"encoding/hex"
 	"fmt"
 	"net/netip"
+	"os"
+	"sort"
+	"strconv"
 	"strings"
 	"time"
 
 	"github.com/alecholmes/xfccparser"
 
 	"istio.io/istio/pkg/security"
+	"istio.io/istio/security/pkg/pki/util"
 	"verifharness/internal/wire"
 )
 
@@ -66,8 +72,14 @@ func spiffeParts(identity string) (td, ns, sa string, ok bool) {
 
 // mayImpersonate states the impersonation clause of the property on the pod world.
 func mayImpersonate(w *world, clusterTok string, k authed, identity string) bool {
+	return impersonationRefusal(w, clusterTok, k, identity) == ""
+}
+
+// impersonationRefusal: "" when the impersonation clause of the property allows the request, else the first
+// condition of the clause that fails (counted in the evidence: which condition refused how often).
+func impersonationRefusal(w *world, clusterTok string, k authed, identity string) string {
 	if len(w.trusted) == 0 {
-		return false
+		return "no-authorizer"
 	}
 	trusted := false
 	for _, t := range w.trusted {
@@ -75,12 +87,15 @@ func mayImpersonate(w *world, clusterTok string, k authed, identity string) bool
 			trusted = true
 		}
 	}
+	if !trusted {
+		return "caller-not-a-trusted-node-account"
+	}
 	_, ns, sa, ok := spiffeParts(identity)
-	if !trusted || !ok {
-		return false
+	if !ok {
+		return "identity-not-a-workload-identity"
 	}
 	if strings.Contains(identity, ",") {
-		return false // not an identity of any workload
+		return "identity-with-comma" // not an identity of any workload
 	}
 	ids := wire.DecList(clusterTok)
 	if clusterTok == "-" || len(ids) != 1 {
@@ -88,7 +103,7 @@ func mayImpersonate(w *world, clusterTok string, k authed, identity string) bool
 	}
 	pods, ok := w.pods[ids[0]]
 	if !ok {
-		return false
+		return "cluster-unknown-or-ambiguous"
 	}
 	node := ""
 	found := false
@@ -97,21 +112,30 @@ func mayImpersonate(w *world, clusterTok string, k authed, identity string) bool
 			continue
 		}
 		if p.name == k.kube.PodName && p.ns == k.kube.PodNamespace {
-			if p.uid != k.kube.PodUID || p.sa != k.kube.PodServiceAccount {
-				return false
+			if p.uid != k.kube.PodUID {
+				return "caller-pod-uid-mismatch"
+			}
+			if p.sa != k.kube.PodServiceAccount {
+				return "caller-pod-account-mismatch"
 			}
 			node, found = p.node, true
 		}
 	}
-	if !found || node == "" || sa == "" {
-		return false
+	if !found {
+		return "caller-pod-unknown"
+	}
+	if node == "" {
+		return "caller-pod-unscheduled"
+	}
+	if sa == "" {
+		return "identity-without-account"
 	}
 	for _, p := range pods {
 		if !p.failed() && !w.isHidden(p.ns) && p.ns == ns && p.sa == sa && p.node == node {
-			return true
+			return ""
 		}
 	}
-	return false
+	return "no-such-workload-on-the-node"
 }
 
 // foreignTrustDomain: the impersonated identity names a trust domain in which the caller itself has
@@ -135,7 +159,15 @@ func foreignTrustDomain(k authed, identity string) bool {
 
 // expectedFromCredential derives, independently of the code under test, who a real authenticator
 // must authenticate for a credential spec (kind first, transport grpc); ok=false: nobody.
-func expectedFromCredential(f []string, clusterTok string) (a authed, ok bool) {
+func expectedFromCredential(f []string, clusterTok string, mesh *string) (a authed, ok bool) {
+	// the trust domain of the mesh config at the time of the request (a `mesh` op may have changed it since the
+	// authenticator was constructed)
+	tdNow := func(constructed string) string {
+		if mesh != nil {
+			return *mesh
+		}
+		return constructed
+	}
 	switch f[0] {
 	case "oidc":
 		sub := wire.Dec(f[6])
@@ -151,7 +183,7 @@ func expectedFromCredential(f []string, clusterTok string) (a authed, ok bool) {
 				}
 			}
 		}
-		a.ids = []string{"spiffe://" + sanitizeTD(wire.Dec(f[2])) + "/ns/" + parts[2] + "/sa/" + parts[3]}
+		a.ids = []string{"spiffe://" + sanitizeTD(tdNow(wire.Dec(f[2]))) + "/ns/" + parts[2] + "/sa/" + parts[3]}
 		return a, ok
 	case "kube":
 		rev := parseReview(f[10])
@@ -189,7 +221,7 @@ func expectedFromCredential(f []string, clusterTok string) (a authed, ok bool) {
 		if !known {
 			return a, false
 		}
-		a.ids = []string{"spiffe://" + sanitizeTD(wire.Dec(f[2])) + "/ns/" + parts[2] + "/sa/" + parts[3]}
+		a.ids = []string{"spiffe://" + sanitizeTD(tdNow(wire.Dec(f[2]))) + "/ns/" + parts[2] + "/sa/" + parts[3]}
 		a.kube = security.KubernetesInfo{PodNamespace: parts[2], PodServiceAccount: parts[3]}
 		if v, ok := extraValues(rev.podName); ok && len(v) > 0 {
 			a.kube.PodName = v[0]
@@ -244,220 +276,424 @@ func expectedFromCredential(f []string, clusterTok string) (a authed, ok bool) {
 	return a, false
 }
 
+// issueJudge executes the ops of stream `issue` on the real code ONCE and does two things with each result:
+// it formats the output line the Lean model must predict (exec), and it evaluates the property on the raw
+// result (oracle), independently of the model.  It also counts what the evidence reports: which condition of
+// the impersonation clause refused, what was issued, which clauses were evaluated how often.
+type issueJudge struct {
+	s       *issueSUT
+	verdict string
+	known   string // a violation of the known-finding class is reported only if nothing else fails
+	open    bool
+	idx     int
+	cfg     []string
+	out     *wire.Out // verdict lines; nil: none wanted
+	stats   map[string]int
+}
+
+func newIssueJudge(verdicts *wire.Out) *issueJudge {
+	return &issueJudge{s: newIssueSUT(), out: verdicts, stats: map[string]int{}}
+}
+
+func (j *issueJudge) count(key string) { j.stats[key]++ }
+
+func (j *issueJudge) flush() {
+	if j.open && j.out != nil {
+		v := j.verdict
+		if v == "" {
+			v = j.known
+		}
+		if v == "" {
+			v = "OK"
+		}
+		j.out.Line(v)
+		j.out.Flush()
+	}
+	j.open = false
+}
+
+// finish writes the last verdict and the counters (`#stats` line, skipped by the reader of verdicts).
+func (j *issueJudge) finish() {
+	j.flush()
+	if j.out != nil {
+		j.out.Line(statsLine(j.stats)...)
+		j.out.Flush()
+	}
+	j.s.close()
+}
+
+func statsLine(stats map[string]int) []string {
+	keys := make([]string, 0, len(stats))
+	for k := range stats {
+		keys = append(keys, k)
+	}
+	sort.Strings(keys)
+	l := []string{"#stats"}
+	for _, k := range keys {
+		l = append(l, k+"="+strconv.Itoa(stats[k]))
+	}
+	return l
+}
+
+func (j *issueJudge) fail(clause, detail string) {
+	if j.verdict == "" {
+		j.verdict = fmt.Sprintf("FAIL %s op=%d %s", clause, j.idx, wire.Enc(detail))
+	}
+}
+
+// judge evaluates the property on one issued certificate.
+func (j *issueJudge) judge(res issueResult, line string, who *authed, csr csrSpec, impTok, clusterTok string) {
+	s := j.s
+	j.count("evaluated.issued-certificate-clauses")
+	if res.perr != nil {
+		j.fail("leaf-unparsable", line)
+		return
+	}
+	if who == nil {
+		j.fail("no-cert-without-authn", line)
+		return
+	}
+	if !csrFormValid(csr.form) {
+		j.fail("malformed-csr-accepted", line)
+	}
+	expected := who.ids
+	if imp, ok := metaString(impTok); ok && imp != "" {
+		j.count("evaluated.impersonation-clause")
+		if !mayImpersonate(s.cur, clusterTok, *who, imp) {
+			j.fail("impersonation-not-authorised", line)
+			return
+		}
+		if foreignTrustDomain(*who, imp) && j.known == "" {
+			j.known = fmt.Sprintf("FAIL impersonation-foreign-trust-domain op=%d %s", j.idx, wire.Enc(line))
+		}
+		expected = []string{imp}
+	}
+	var want []string
+	for _, id := range expected {
+		w := oracleSAN(id)
+		want = append(want, w)
+		j.count("issued.san." + map[byte]string{'U': "uri", 'D': "dns", 'I': "ip"}[w[0]])
+	}
+	if len(expected) > 1 {
+		j.count("issued.identities.several")
+	} else {
+		j.count("issued.identities.one")
+	}
+	l := res.leaf
+	if !l.sanCritical && len(l.subject) == 0 {
+		j.fail("san-not-critical-with-empty-subject", line) // RFC 5280 4.2.1.6: required for an empty subject
+	}
+	if l.sanCount != 1 || strings.Join(l.sans, ",") != strings.Join(want, ",") {
+		j.fail("san-exact", "want="+strings.Join(want, ",")+" "+line)
+	}
+	for _, a := range l.subject {
+		if !strings.HasPrefix(a, "2.5.4.3=") {
+			j.fail("subject-from-csr", line)
+		}
+	}
+	if len(l.subject) > 1 || (l.cn != "" && (len(expected) == 0 || l.cn != expected[0])) {
+		j.fail("subject-from-csr", line)
+	}
+	if l.isCA {
+		j.fail("never-ca", line)
+	}
+	if l.keyUsage&(1<<5) != 0 {
+		j.fail("never-ca(keyCertSign)", line)
+	}
+	if res.spki == nil || !bytes.Equal(l.spki, res.spki) {
+		j.fail("binds-csr-key", line)
+	}
+	signer := s.signerCert()
+	if signer == nil {
+		j.fail("issued-without-signer", line)
+		return
+	}
+	if !s.signedBySigner(l) {
+		j.fail("not-signed-by-ca", line)
+	}
+	if l.notAfter.After(signer.NotAfter) {
+		j.fail("not-beyond-signer-expiry", line)
+	}
+	if !res.before.Before(signer.NotAfter) {
+		j.fail("expired-signer-issued", line)
+	}
+	var max int64
+	fmt.Sscan(j.cfg[6], &max)
+	if l.notAfter.After(res.after.Add(time.Duration(max) * time.Second)) {
+		j.fail("lifetime-within-max", line)
+	}
+	// the validity window in absolute time: it opens two minutes (the clock-skew grace) before the request - not
+	// later than the request, not earlier than that - and is never longer than the maximum plus the grace
+	// (certificate times are whole seconds)
+	if l.notBefore.After(res.after) || l.notBefore.Before(res.before.Add(-121*time.Second)) {
+		j.fail("validity-window-start", line)
+	}
+	if l.notAfter.Sub(l.notBefore) > time.Duration(max+120)*time.Second {
+		j.fail("validity-window-length", line)
+	}
+	if len(l.xext) != 0 {
+		j.fail("csr-extension-copied", line)
+	}
+}
+
+// gate accounts one authenticated request that asks for impersonation: issued, or refused - and then by which
+// condition of the clause, as the oracle sees it.
+func (j *issueJudge) gate(res issueResult, who *authed, impTok, clusterTok, via string) {
+	imp, ok := metaString(impTok)
+	if !ok || imp == "" || who == nil || res.crash {
+		return
+	}
+	why := impersonationRefusal(j.s.cur, clusterTok, *who, imp)
+	switch {
+	case res.code == "":
+		j.count("gate.issued." + via)
+	case why == "":
+		j.count("gate.allowed-but-request-failed." + res.code)
+		if res.code == "Unauthenticated" && os.Getenv("C09_DEBUG") != "" {
+			fmt.Fprintln(os.Stderr, "allowed-but-unauthenticated: op", j.idx, impTok, clusterTok, who.kube, strings.Join(j.s.naLine, " "))
+		}
+	default:
+		j.count("gate.refused." + why)
+	}
+}
+
+// step executes one op; it returns the output line of the real code.
+func (j *issueJudge) step(f []string) string {
+	s := j.s
+	if f[0] == "case" {
+		j.flush()
+		out := s.apply(f)
+		j.verdict, j.known, j.open, j.idx = "", "", true, 0
+		return out
+	}
+	j.idx++
+	switch f[0] {
+	case "req":
+		if !s.caOK || s.cur == nil {
+			return "no-ca"
+		}
+		r, err := parseReq(f)
+		if err != nil {
+			return "bad-op"
+		}
+		res := s.run(r)
+		line := s.format(res)
+		j.count("evaluated.errors-not-crashes")
+		if res.crash {
+			j.fail("errors-not-crashes", strings.Join(f, " "))
+			return line
+		}
+		var who *authed
+		if r.xdsAuth && r.hasPeer && (r.tls || r.plaintext) {
+			for i := range r.outs {
+				if r.outs[i].kind == "ok" && len(r.outs[i].ids) > 0 {
+					who = &authed{ids: r.outs[i].ids, kube: r.outs[i].kube}
+					break
+				}
+			}
+		}
+		j.gate(res, who, r.imp, r.cluster, "scripted-caller")
+		if res.code != "" {
+			return line // an error is always allowed by the property
+		}
+		j.judge(res, line, who, r.csr, r.imp, r.cluster)
+		j.genCSRClause(r.csr)
+		return line
+	case "reqm":
+		if !s.caOK || s.cur == nil {
+			return "no-ca"
+		}
+		m, err := parseReqM(f)
+		if err != nil {
+			return "bad-op"
+		}
+		res, err := s.runM(m)
+		if err != nil {
+			return "fixture-failed " + wire.Enc(err.Error())
+		}
+		line := s.format(res)
+		if res.rejected {
+			return line
+		}
+		j.count("evaluated.errors-not-crashes")
+		j.count("transport." + map[bool]string{true: "tls", false: m.req.mode}[m.req.mode == ""])
+		if res.crash {
+			skip := false
+			for _, sp := range m.specs {
+				if sp[0] == "xfcc" && !peerIsNetworkAddress(sp[3]) {
+					skip = true
+				}
+			}
+			if !skip {
+				j.fail("errors-not-crashes", strings.Join(f, " "))
+			}
+			return line
+		}
+		// authenticated: the first authenticator, in order, whose credential is valid
+		var who *authed
+		connOK := modeAuthenticates(m.req.mode)
+		for _, sp := range m.specs {
+			if (sp[0] == "xfcc" && sp[3] == "nopeer") || (m.req.mode == "" && sp[0] == "cert" && sp[2] != "tls" && sp[2] != "tlspeer") {
+				connOK = false // no peer / no TLS auth info: security.Authenticate refuses before any authenticator runs
+			}
+		}
+		winner := "none"
+		for i, sp := range m.specs {
+			if m.req.mode != "" && (sp[0] == "cert" || sp[0] == "tlscert") {
+				continue // not a TLS connection: there is no client certificate
+			}
+			if w, ok := expectedFromCredential(sp, m.req.cluster, s.authn.mesh); ok && connOK && who == nil {
+				x := w
+				who = &x
+				winner = strconv.Itoa(i) + "-" + sp[0]
+			}
+		}
+		j.count("reqm.winner." + winner)
+		j.gate(res, who, m.req.imp, m.req.cluster, "real-authenticator-chain")
+		if res.code != "" {
+			return line
+		}
+		j.judge(res, line, who, m.req.csr, m.req.imp, m.req.cluster)
+		j.genCSRClause(m.req.csr)
+		return line
+	case "reqa":
+		if !s.caOK || s.cur == nil {
+			return "no-ca"
+		}
+		a, err := parseReqA(f)
+		if err != nil {
+			return "bad-op"
+		}
+		res, _, err := s.runA(a)
+		if err != nil {
+			return "fixture-failed " + wire.Enc(err.Error())
+		}
+		line := s.format(res)
+		if res.rejected {
+			return line // the TLS handshake was refused: no request, no certificate
+		}
+		j.count("evaluated.errors-not-crashes")
+		j.count("transport." + map[bool]string{true: "tls", false: a.req.mode}[a.req.mode == ""])
+		if res.crash {
+			if a.spec[0] == "xfcc" && !peerIsNetworkAddress(a.spec[3]) {
+				return line // not a transport address (recorded observation)
+			}
+			j.fail("errors-not-crashes", strings.Join(f, " "))
+			return line
+		}
+		var who *authed
+		certKind := a.spec[0] == "cert" || a.spec[0] == "tlscert"
+		if w, ok := expectedFromCredential(a.spec, a.req.cluster, s.authn.mesh); ok && modeAuthenticates(a.req.mode) && !(a.req.mode != "" && certKind) {
+			who = &w
+		}
+		j.gate(res, who, a.req.imp, a.req.cluster, "real-"+a.spec[0])
+		if res.code != "" {
+			return line
+		}
+		j.judge(res, line, who, a.req.csr, a.req.imp, a.req.cluster)
+		j.genCSRClause(a.req.csr)
+		return line
+	case "genkeycert":
+		// istiod's own serving certificate: the real IstioCA.GenKeyCert
+		if !s.caOK || len(f) != 3 {
+			return "bad-op"
+		}
+		ttl, _ := strconv.ParseInt(f[2], 10, 64)
+		hosts := wire.DecList(f[1])
+		var r keyCertResult
+		crashed := func() (c bool) {
+			defer func() {
+				if recover() != nil {
+					c = true
+				}
+			}()
+			r = s.genKeyCert(hosts, ttl)
+			return false
+		}()
+		if crashed {
+			j.fail("errors-not-crashes", strings.Join(f, " "))
+			return "crash"
+		}
+		line := s.formatKeyCert(r)
+		j.judgeKeyCert(r, hosts, ttl, strings.Join(f, " ")+" => "+line)
+		return line
+	}
+	out := s.apply(f)
+	if out == "crash" {
+		j.fail("errors-not-crashes", strings.Join(f, " "))
+	}
+	if f[0] == "ca" {
+		j.cfg = f
+	}
+	return out
+}
+
+// genCSRClause: the CSR of the request came from the real util.GenCSR - report the first defect found in one.
+func (j *issueJudge) genCSRClause(c csrSpec) {
+	if c.form != "gen" {
+		return
+	}
+	j.count("evaluated.gencsr-clause")
+	if j.s.keys.genFault != "" {
+		j.fail("gencsr-"+j.s.keys.genFault, "util.GenCSR output")
+		j.s.keys.genFault = ""
+	}
+}
+
+// judgeKeyCert: the property for GenKeyCert - the certificate names exactly the hosts asked for (one SAN entry
+// each, none for a host with a comma: refused), is no CA certificate, belongs to the returned private key, is
+// signed by the CA's signing certificate and does not outlive it nor the lifetime asked for.
+func (j *issueJudge) judgeKeyCert(r keyCertResult, hosts []string, ttl int64, line string) {
+	j.count("evaluated.genkeycert-clauses")
+	if r.err {
+		return
+	}
+	if r.perr != nil {
+		j.fail("genkeycert-leaf-unparsable", line)
+		return
+	}
+	l := r.leaf
+	var want []string
+	for _, h := range hosts {
+		if strings.Contains(h, ",") {
+			j.fail("genkeycert-comma-host-accepted", line)
+		}
+		want = append(want, oracleSAN(h))
+	}
+	if l.sanCount != 1 || strings.Join(l.sans, ",") != strings.Join(want, ",") {
+		j.fail("genkeycert-san-exact", line)
+	}
+	if l.isCA || l.keyUsage&(1<<5) != 0 {
+		j.fail("genkeycert-never-ca", line)
+	}
+	key, err := util.ParsePemEncodedKey(r.keyPEM)
+	if signer, ok := key.(crypto.Signer); err != nil || !ok {
+		j.fail("genkeycert-key-mismatch", line)
+	} else if pub, err := x509.MarshalPKIXPublicKey(signer.Public()); err != nil || !bytes.Equal(pub, l.spki) {
+		j.fail("genkeycert-key-mismatch", line)
+	}
+	signer := j.s.signerCert()
+	if signer == nil || !j.s.signedBySigner(l) {
+		j.fail("genkeycert-not-signed-by-ca", line)
+		return
+	}
+	if l.notAfter.After(signer.NotAfter) {
+		j.fail("genkeycert-beyond-signer-expiry", line)
+	}
+	if l.notAfter.After(r.after.Add(time.Duration(ttl) * time.Second)) {
+		j.fail("genkeycert-lifetime", line)
+	}
+	if len(l.subject) != 0 || len(l.xext) != 0 {
+		j.fail("genkeycert-extra-content", line)
+	}
+}
+
 func oracleIssue(in, outp string) {
 	out := wire.Create(outp)
 	defer out.Close()
-	s := newIssueSUT()
-	verdict, open, idx := "", false, 0
-	known := "" // a violation of the known-finding class is reported only if nothing else fails
-	var cfg []string
-	flush := func() {
-		if open {
-			if verdict == "" {
-				verdict = known
-			}
-			if verdict == "" {
-				verdict = "OK"
-			}
-			out.Line(verdict)
-			out.Flush()
-		}
-	}
-	fail := func(clause, detail string) {
-		if verdict == "" {
-			verdict = fmt.Sprintf("FAIL %s op=%d %s", clause, idx, wire.Enc(detail))
-		}
-	}
-	// judge evaluates the property on one issued certificate.
-	judge := func(res issueResult, line string, who *authed, csr csrSpec, impTok, clusterTok string) {
-		if res.perr != nil {
-			fail("leaf-unparsable", line)
-			return
-		}
-		if who == nil {
-			fail("no-cert-without-authn", line)
-			return
-		}
-		if !csrFormParses(csr.form) || csr.form == "badsig" {
-			fail("malformed-csr-accepted", line)
-		}
-		expected := who.ids
-		if imp, ok := metaString(impTok); ok && imp != "" {
-			if !mayImpersonate(s.cur, clusterTok, *who, imp) {
-				fail("impersonation-not-authorised", line)
-				return
-			}
-			if foreignTrustDomain(*who, imp) && known == "" {
-				known = fmt.Sprintf("FAIL impersonation-foreign-trust-domain op=%d %s", idx, wire.Enc(line))
-			}
-			expected = []string{imp}
-		}
-		var want []string
-		for _, id := range expected {
-			want = append(want, oracleSAN(id))
-		}
-		l := res.leaf
-		if !l.sanCritical && len(l.subject) == 0 {
-			fail("san-not-critical-with-empty-subject", line) // RFC 5280 4.2.1.6: required for an empty subject
-		}
-		if l.sanCount != 1 || strings.Join(l.sans, ",") != strings.Join(want, ",") {
-			fail("san-exact", "want="+strings.Join(want, ",")+" "+line)
-		}
-		for _, a := range l.subject {
-			if !strings.HasPrefix(a, "2.5.4.3=") {
-				fail("subject-from-csr", line)
-			}
-		}
-		if len(l.subject) > 1 || (l.cn != "" && (len(expected) == 0 || l.cn != expected[0])) {
-			fail("subject-from-csr", line)
-		}
-		if l.isCA {
-			fail("never-ca", line)
-		}
-		if l.keyUsage&(1<<5) != 0 {
-			fail("never-ca(keyCertSign)", line)
-		}
-		if res.spki == nil || !bytes.Equal(l.spki, res.spki) {
-			fail("binds-csr-key", line)
-		}
-		signer := s.signerCert()
-		if signer == nil {
-			fail("issued-without-signer", line)
-			return
-		}
-		if !s.signedBySigner(l) {
-			fail("not-signed-by-ca", line)
-		}
-		if l.notAfter.After(signer.NotAfter) {
-			fail("not-beyond-signer-expiry", line)
-		}
-		if !res.before.Before(signer.NotAfter) {
-			fail("expired-signer-issued", line)
-		}
-		var max int64
-		fmt.Sscan(cfg[6], &max)
-		if l.notAfter.After(res.after.Add(time.Duration(max) * time.Second)) {
-			fail("lifetime-within-max", line)
-		}
-		if len(l.xext) != 0 {
-			fail("csr-extension-copied", line)
-		}
-	}
+	j := newIssueJudge(out)
 	for _, f := range wire.ReadLines(in) {
-		if f[0] == "case" {
-			flush()
-			s.apply(f)
-			verdict, known, open, idx = "", "", true, 0
-			continue
-		}
-		idx++
-		switch f[0] {
-		case "req":
-			if !s.caOK || s.cur == nil {
-				continue
-			}
-			r, err := parseReq(f)
-			if err != nil {
-				continue
-			}
-			res := s.run(r)
-			if res.crash {
-				fail("errors-not-crashes", strings.Join(f, " "))
-				continue
-			}
-			if res.code != "" {
-				continue // an error is always allowed by the property
-			}
-			var who *authed
-			if r.xdsAuth && r.hasPeer && (r.tls || r.plaintext) {
-				for i := range r.outs {
-					if r.outs[i].kind == "ok" && len(r.outs[i].ids) > 0 {
-						who = &authed{ids: r.outs[i].ids, kube: r.outs[i].kube}
-						break
-					}
-				}
-			}
-			judge(res, s.format(res), who, r.csr, r.imp, r.cluster)
-		case "reqm":
-			if !s.caOK || s.cur == nil {
-				continue
-			}
-			m, err := parseReqM(f)
-			if err != nil {
-				continue
-			}
-			res, err := s.runM(m)
-			if err != nil || res.rejected {
-				continue
-			}
-			if res.crash {
-				skip := false
-				for _, sp := range m.specs {
-					if sp[0] == "xfcc" && !peerIsNetworkAddress(sp[3]) {
-						skip = true
-					}
-				}
-				if !skip {
-					fail("errors-not-crashes", strings.Join(f, " "))
-				}
-				continue
-			}
-			if res.code != "" {
-				continue
-			}
-			// authenticated: the first authenticator, in order, whose credential is valid
-			var who *authed
-			connOK := true
-			for _, sp := range m.specs {
-				if (sp[0] == "xfcc" && sp[3] == "nopeer") || (sp[0] == "cert" && sp[2] != "tls" && sp[2] != "tlspeer") {
-					connOK = false // no peer / no TLS auth info: security.Authenticate refuses before any authenticator runs
-				}
-			}
-			for _, sp := range m.specs {
-				if w, ok := expectedFromCredential(sp, m.req.cluster); ok && connOK && who == nil {
-					x := w
-					who = &x
-				}
-			}
-			judge(res, s.format(res), who, m.req.csr, m.req.imp, m.req.cluster)
-		case "reqa":
-			if !s.caOK || s.cur == nil {
-				continue
-			}
-			a, err := parseReqA(f)
-			if err != nil {
-				continue
-			}
-			res, _, err := s.runA(a)
-			if err != nil {
-				continue
-			}
-			if res.rejected {
-				continue // the TLS handshake was refused: no request, no certificate
-			}
-			if res.crash {
-				if a.spec[0] == "xfcc" && !peerIsNetworkAddress(a.spec[3]) {
-					continue // not a transport address (recorded observation)
-				}
-				fail("errors-not-crashes", strings.Join(f, " "))
-				continue
-			}
-			if res.code != "" {
-				continue
-			}
-			var who *authed
-			if w, ok := expectedFromCredential(a.spec, a.req.cluster); ok {
-				who = &w
-			}
-			judge(res, s.format(res), who, a.req.csr, a.req.imp, a.req.cluster)
-		default:
-			if r := s.apply(f); r == "crash" {
-				fail("errors-not-crashes", strings.Join(f, " "))
-			}
-			if f[0] == "ca" {
-				cfg = f
-			}
-		}
+		j.step(f)
 	}
-	flush()
+	j.finish()
 }
